@@ -42,6 +42,14 @@ def make_runs(run):
         k += 1
         if p is None:
             continue
+        if k % 5 == 3 and not cif_like and p["repl"]["t_lab"]:
+            # two parameterisations that happen to use the same type label: the pattern calls its atoms what the structure calls atoms of
+            # that element, but defines other masses and pair coefficients for them
+            by_el = {}
+            for e, lab in zip(p["S"]["t_el"], p["S"]["t_lab"]):
+                by_el.setdefault(e, lab)
+            p["repl"]["t_lab"] = [by_el.get(e, lab) for e, lab in zip(p["repl"]["t_el"], p["repl"]["t_lab"])]
+            run.count("same-labels-other-parameters")
         runs.append(dict(p=p, frac=Fraction(1), replace_all=(k % 7 == 0), ignore=False, seed=run.rng.randrange(1 << 30),
                          parts=("atoms", "terms", "outcome"), kind="cif-like" if cif_like else "planted", stage2=(k % 4 == 0 and not cif_like)))
     return runs
